@@ -315,7 +315,7 @@ def _analysis(indict, disable_stiffness_check: bool = False, disable_analytic_so
         for solver_json in solvers_json:
             solver_json["parameters"] = {}
             for param_name, param_expr in indict["parameters"].items():
-                # only make parameters appear in a solver if they are actually used there
+                # only make parameters appear in a solver if they are actually used there (in an update expression, a propagator or an initial value)
                 symbol_appears_in_any_expr = False
                 if "update_expressions" in solver_json.keys():
                     for sym, expr in solver_json["update_expressions"].items():
@@ -326,6 +326,12 @@ def _analysis(indict, disable_stiffness_check: bool = False, disable_analytic_so
                 if "propagators" in solver_json.keys():
                     for sym, expr in solver_json["propagators"].items():
                         if param_name in [str(sym) for sym in list(expr.atoms())]:
+                            symbol_appears_in_any_expr = True
+                            break
+
+                if "initial_values" in solver_json.keys():
+                    for sym, expr in solver_json["initial_values"].items():
+                        if param_name in [str(sym) for sym in list(sympy.parsing.sympy_parser.parse_expr(expr, global_dict=Shape._sympy_globals).atoms())]:
                             symbol_appears_in_any_expr = True
                             break
 
